@@ -26,6 +26,10 @@ def main():
     except Exception as exc:
         r = {'ok': False, 'property': pid, 'error': repr(exc), 'trace': traceback.format_exc(limit=10)}
     print('REPLAY-RESULT ' + json.dumps(r, default=str))
+    sys.stdout.flush()
+    # leave at once: a replayed failure may have left a process pool behind whose exit handler would block
+    import os
+    os._exit(0)
 
 
 if __name__ == '__main__':
